@@ -35,6 +35,23 @@ def isTrue (v : Val) : Bool := v.bits ≠ 0
 structure NumSem where
   arity : String → Nat                      -- 1 or 2
   sem : String → List Val → Out Val         -- operands in push order
+  /-- calls (the callee's semantics is a parameter, instantiated with the function-level
+      semantics one fuel level down by the module-level theorem): number of parameters and result
+      type by function index; the specification side and the emitted-C side of the same callee -/
+  callArity : Nat → Option (Nat × Option VT) := fun _ => none
+  callS : Nat → List Val → Out (Option Val) := fun _ _ => .oof
+  callT : Nat → List Val → Out (Option Val) := fun _ _ => .oof
+  /-- call_indirect: by type index; the callee is selected by the table slot -/
+  indArity : Nat → Option (Nat × Option VT) := fun _ => none
+  indS : Nat → Nat → List Val → Out (Option Val) := fun _ _ _ => .oof
+  indT : Nat → Nat → List Val → Out (Option Val) := fun _ _ _ => .oof
+
+/-- the operand stack after a call: `n` arguments popped, the result (if any) pushed -/
+def afterCall (stk : List Val) (n : Nat) (rt : Option VT) (r : Option Val) (loc : List Val) (normal : List Val → List Val → α) (stuck : α) : α :=
+  match rt, r with
+  | none, none => normal (stk.take (stk.length - n)) loc
+  | some _, some v => normal (stk.take (stk.length - n) ++ [v]) loc
+  | _, _ => stuck
 
 /-! ## source: WebAssembly -/
 
@@ -122,6 +139,25 @@ def erunInstr (ns : NumSem) : Nat → EInstr → List Val → List Val → ERes
        | none => .stuck
        | some c => .branch (ls.getD c.bits d) stk.dropLast loc)
     | .ret => .ret stk loc
+    | .call fn =>
+      (match ns.callArity fn with
+       | none => .stuck
+       | some (n, rt) =>
+         if stk.length < n then .stuck else
+         match ns.callS fn (topN n stk) with
+         | .val r => afterCall stk n rt r loc .normal .stuck
+         | .trap t => .trap t
+         | _ => .stuck)
+    | .callIndirect ty _ =>
+      (match ns.indArity ty with
+       | none => .stuck
+       | some (n, rt) =>
+         if stk.length < n + 1 then .stuck else
+         let idx := stk.getD (stk.length - 1) (.i32 0)
+         match ns.indS ty idx.bits (topN n stk.dropLast) with
+         | .val r => afterCall stk.dropLast n rt r loc .normal .stuck
+         | .trap t => .trap t
+         | _ => .stuck)
     | _ => .stuck                                   -- outside the core covered by the theorem
 end
 
@@ -198,6 +234,24 @@ def execStmt (ns : NumSem) : Nat → MStmtC → MSt → MRes
        | .jump L' σ' => if L' = L then .normal σ' else .jump L' σ'
        | r => r)
     | .unreachable => .trap .unreachable
+    | .call res fn args =>
+      (match ns.callT fn (args.map σ.get) with
+       | .val r =>
+         (match res, r with
+          | none, none => .normal σ
+          | some d, some v => .normal (σ.set d v)
+          | _, _ => .stuck)
+       | .trap t => .trap t
+       | _ => .stuck)
+    | .callIndirect res ty _ idx args =>
+      (match ns.indT ty (σ.get idx).bits (args.map σ.get) with
+       | .val r =>
+         (match res, r with
+          | none, none => .normal σ
+          | some d, some v => .normal (σ.set d v)
+          | _, _ => .stuck)
+       | .trap t => .trap t
+       | _ => .stuck)
     | _ => .stuck                                   -- outside the core covered by the theorem
 end
 
